@@ -96,6 +96,8 @@ class Runner(object):
                 if changed:
                     coarse = sorted({"structure" if c.split(".")[1] in ("parent", "sections", "properties")
                                      else "attributes" for c in changed})
+                    if op[0] == "finalize":
+                        coarse = ["earlier-links-stay-resolved"]
                     step_events.append(("R", key_of(op, tags, [type(res["raised"]).__name__] + coarse),
                                         "%r raised %r but changed %s [pre-state %s]" % (
                                             op, res["raised"], changed, tags)))
@@ -638,7 +640,8 @@ def random_history(rng, runner, length, failing=0.3, skip=()):
         cell = "%s:%s" % (op[0], "+".join(sorted(set(probe))) or "-")
         if op[0] in ("merge", "set_link", "finalize") and set(probe) & {"self", "related", "ancestor", "descendant",
                                                                       "other-document-or-detached",
-                                                                      "link-into-own-branch"}:
+                                                                      "link-into-own-branch",
+                                                                      "chained-or-nested-links"}:
             # outside every quantifier (merging a Section into itself / its own subtree, links to the
             # own subtree); exercised once each by the directed deck only
             runner.rec.count("skipped_out_of_scope_cells", cell)
